@@ -35,12 +35,11 @@ class C03:
         exp = cat.expected_words(r)
         if r.nested_detached:
             ok = sorted(got) == sorted(exp)
-            # each flow complete and in order
+            # each flow complete, in order, in one piece (a flow may be printed more than once, words may repeat)
             if ok:
                 for f in r.flows:
                     ws = [s[1] for s in f if s[0] == 'C' and cat.WORD_RE.fullmatch(s[1])]
-                    idx = [got.index(w) for w in ws if w in got]
-                    if idx != sorted(idx):
+                    if ws and not any(got[i:i + len(ws)] == ws for i in range(len(got) - len(ws) + 1)):
                         ok = False
         else:
             ok = got == exp
